@@ -1,10 +1,10 @@
 SPECIFICATION Spec
 CONSTANTS
-  Producers = {1, 2}
+  Producers = {1}
   NPush = 2
   NOps = 2
-  Readers = {}
-  NReads = 0
+  Readers = {10, 11}
+  NReads = 2
   Variant = "code"
 INVARIANTS NoRace AnnotOK MutexOK
 PROPERTY Refines
